@@ -72,10 +72,10 @@ const SlotsPerEpoch = 8
 // Odd content, restricted to what the C01 statement lists.
 var oddNames = []string{
 	"slot+1", "slot-1", "slot+epoch", // wrong slot
-	"source>target",                        // source epoch above target epoch
-	"target+1",                             // target epoch above the duty epoch
-	"target-1", "target-1,source=target",   // target epoch below the duty epoch
-	"slot+epoch,target+1",                  // self-consistent data of the wrong slot
+	"source>target",                      // source epoch above target epoch
+	"target+1",                           // target epoch above the duty epoch
+	"target-1", "target-1,source=target", // target epoch below the duty epoch
+	"slot+epoch,target+1", // self-consistent data of the wrong slot
 }
 
 var slotIns = []uint64{0, 3, 7}
@@ -254,7 +254,7 @@ func indexOf(a []uint64, v uint64) int {
 
 // genDuty draws 1..6 validators in arbitrary order over 1..3 committees with
 // distinct sizes; positions are distinct within the duty and different from
-// every committee index and size, so that any mix-up is visible.
+// every committee index, so that any mix-up between entries or fields is visible.
 func genDuty(p *simrt.Tape, pl *Plan, r *RunPlan) {
 	nv := len(pl.Vals)
 	k := p.Range(1, nv)
